@@ -76,16 +76,16 @@ func fuzzFilter(input []byte) ([]byte, int) {
 		input = input[:1<<20]
 	}
 
+	if kf.Listed(kfFirstLineEOF) && len(input) > 0 && !gluonTagStart(input[0]) {
+		input = append([]byte("lead NOOP\r\n"), input...)
+		excluded++
+	}
+
 	if kf.Listed(kfQuotedEOF) {
 		var changed bool
 		if input, changed = steerQuotedEOF(input); changed {
 			excluded++
 		}
-	}
-
-	if kf.Listed(kfFirstLineEOF) && len(input) > 0 && !gluonTagStart(input[0]) {
-		input = append([]byte("lead NOOP\r\n"), input...)
-		excluded++
 	}
 
 	// F-C11d (while listed): a megabyte of input cannot reach the crashing depth; nothing to steer.
